@@ -29,6 +29,11 @@ def r1_status(run, F):
     from rules import origins as _or
     o = _or.origins(m["hir"], tail, m.get("params", ())) if tail else set()
     ok = ("call", "do_main") in o and not any(k[0] == "call" and str(k[1]).split("::")[-1] in ("Ok", "Err", "map", "or", "and_then", "map_err") for k in o)
+    # ... on every exit: main has no early return and builds no Result of its own (an `Ok(())` for some kinds of failure turns a
+    # failed backend into exit status 0)
+    own = [hirq.short(p) for p, _ in hirq.constructs(m["hir"]) if hirq.short(p).split("::")[-1] in ("Ok", "Err")]
+    early = [n for n in walk(m["hir"]) if n.get("k") == "Ret"]
+    ok = ok and not own and not early
     run.ob("R1-EXIT-STATUS", "main returns do_main()", bool(ok), F.where(m), "the process status is do_main()'s Result")
     c = F.bin.bodies.get("compile_to_ir_using_alpha")
     run.require(c is not None, "compile_to_ir_using_alpha not found (cfg B)")
